@@ -22,7 +22,7 @@ from typing import (
 import certifi
 import service_identity
 from cryptography import x509
-from cryptography.exceptions import InvalidSignature
+from cryptography.exceptions import InvalidSignature, UnsupportedAlgorithm
 from cryptography.hazmat.backends import default_backend
 from cryptography.hazmat.primitives import hashes, hmac, serialization
 from cryptography.hazmat.primitives.asymmetric import (
@@ -252,7 +252,11 @@ def verify_certificate(
             service_identity.CertificateError,
             service_identity.VerificationError,
         ) as exc:
-            patterns = service_identity.cryptography.extract_patterns(certificate)
+            try:
+                patterns = service_identity.cryptography.extract_patterns(certificate)
+            except service_identity.CertificateError:
+                # the certificate's names are themselves malformed
+                patterns = []
             if len(patterns) == 0:
                 errmsg = str(exc)
             elif len(patterns) == 1:
@@ -474,7 +478,10 @@ def pull_server_name(buf: Buffer) -> str:
             raise AlertIllegalParameter(
                 f"ServerName has an unknown name type {name_type}"
             )
-        return pull_opaque(buf, 2).decode("ascii")
+        try:
+            return pull_opaque(buf, 2).decode("ascii")
+        except UnicodeDecodeError:
+            raise AlertIllegalParameter("ServerName is not ASCII")
 
 
 def push_server_name(buf: Buffer, server_name: str) -> None:
@@ -1163,16 +1170,19 @@ def cipher_suite_hash(cipher_suite: CipherSuite) -> hashes.HashAlgorithm:
 def decode_public_key(
     key_share: KeyShareEntry,
 ) -> Union[ec.EllipticCurvePublicKey, x25519.X25519PublicKey, x448.X448PublicKey, None]:
-    if key_share[0] == Group.X25519:
-        return x25519.X25519PublicKey.from_public_bytes(key_share[1])
-    elif key_share[0] == Group.X448:
-        return x448.X448PublicKey.from_public_bytes(key_share[1])
-    elif key_share[0] in GROUP_TO_CURVE:
-        return ec.EllipticCurvePublicKey.from_encoded_point(
-            GROUP_TO_CURVE[key_share[0]](), key_share[1]
-        )
-    else:
-        return None
+    try:
+        if key_share[0] == Group.X25519:
+            return x25519.X25519PublicKey.from_public_bytes(key_share[1])
+        elif key_share[0] == Group.X448:
+            return x448.X448PublicKey.from_public_bytes(key_share[1])
+        elif key_share[0] in GROUP_TO_CURVE:
+            return ec.EllipticCurvePublicKey.from_encoded_point(
+                GROUP_TO_CURVE[key_share[0]](), key_share[1]
+            )
+        else:
+            return None
+    except ValueError:
+        raise AlertIllegalParameter("Malformed public key in key share")
 
 
 def encode_public_key(
@@ -1539,6 +1549,11 @@ class Context:
             )
         except InvalidSignature:
             raise AlertDecryptError
+        except (AttributeError, TypeError, ValueError, UnsupportedAlgorithm):
+            # The signature algorithm does not fit the certificate's key type.
+            raise AlertIllegalParameter(
+                "CertificateVerify algorithm does not match the certificate's key"
+            )
 
     def _client_send_hello(self, output_buf: Buffer) -> None:
         key_share: list[KeyShareEntry] = []
@@ -1675,7 +1690,27 @@ class Context:
         self._key_schedule_proxy = None
 
         # perform key exchange
+        if peer_hello.key_share is None:
+            raise AlertIllegalParameter("ServerHello has no key share")
         peer_public_key = decode_public_key(peer_hello.key_share)
+        shared_key: Optional[bytes] = None
+        try:
+            shared_key = self._client_key_exchange(peer_public_key)
+        except ValueError:
+            raise AlertIllegalParameter("Key exchange failed")
+        if shared_key is None:
+            raise AlertIllegalParameter("ServerHello has a key share we did not offer")
+
+        self.key_schedule.update_hash(input_buf.data)
+        self.key_schedule.extract(shared_key)
+
+        self._setup_traffic_protection(
+            Direction.DECRYPT, Epoch.HANDSHAKE, b"s hs traffic"
+        )
+
+        self._set_state(State.CLIENT_EXPECT_ENCRYPTED_EXTENSIONS)
+
+    def _client_key_exchange(self, peer_public_key: Any) -> Optional[bytes]:
         shared_key: Optional[bytes] = None
         if (
             isinstance(peer_public_key, x25519.X25519PublicKey)
@@ -1694,16 +1729,7 @@ class Context:
                     == peer_public_key.curve.__class__
                 ):
                     shared_key = ec_private_key.exchange(ec.ECDH(), peer_public_key)
-        assert shared_key is not None
-
-        self.key_schedule.update_hash(input_buf.data)
-        self.key_schedule.extract(shared_key)
-
-        self._setup_traffic_protection(
-            Direction.DECRYPT, Epoch.HANDSHAKE, b"s hs traffic"
-        )
-
-        self._set_state(State.CLIENT_EXPECT_ENCRYPTED_EXTENSIONS)
+        return shared_key
 
     def _client_handle_encrypted_extensions(self, input_buf: Buffer) -> None:
         encrypted_extensions = pull_encrypted_extensions(input_buf)
@@ -1999,25 +2025,29 @@ class Context:
             ec.EllipticCurvePublicKey, x25519.X25519PublicKey, x448.X448PublicKey
         ]
         shared_key: Optional[bytes] = None
-        for key_share in peer_hello.key_share:
-            peer_public_key = decode_public_key(key_share)
-            if isinstance(peer_public_key, x25519.X25519PublicKey):
-                self._x25519_private_key = x25519.X25519PrivateKey.generate()
-                public_key = self._x25519_private_key.public_key()
-                shared_key = self._x25519_private_key.exchange(peer_public_key)
-                break
-            elif isinstance(peer_public_key, x448.X448PublicKey):
-                self._x448_private_key = x448.X448PrivateKey.generate()
-                public_key = self._x448_private_key.public_key()
-                shared_key = self._x448_private_key.exchange(peer_public_key)
-                break
-            elif isinstance(peer_public_key, ec.EllipticCurvePublicKey):
-                ec_private_key = ec.generate_private_key(GROUP_TO_CURVE[key_share[0]]())
-                self._ec_private_keys.append(ec_private_key)
-                public_key = ec_private_key.public_key()
-                shared_key = ec_private_key.exchange(ec.ECDH(), peer_public_key)
-                break
-        assert shared_key is not None
+        try:
+            for key_share in peer_hello.key_share or []:
+                peer_public_key = decode_public_key(key_share)
+                if isinstance(peer_public_key, x25519.X25519PublicKey):
+                    self._x25519_private_key = x25519.X25519PrivateKey.generate()
+                    public_key = self._x25519_private_key.public_key()
+                    shared_key = self._x25519_private_key.exchange(peer_public_key)
+                    break
+                elif isinstance(peer_public_key, x448.X448PublicKey):
+                    self._x448_private_key = x448.X448PrivateKey.generate()
+                    public_key = self._x448_private_key.public_key()
+                    shared_key = self._x448_private_key.exchange(peer_public_key)
+                    break
+                elif isinstance(peer_public_key, ec.EllipticCurvePublicKey):
+                    ec_private_key = ec.generate_private_key(GROUP_TO_CURVE[key_share[0]]())
+                    self._ec_private_keys.append(ec_private_key)
+                    public_key = ec_private_key.public_key()
+                    shared_key = ec_private_key.exchange(ec.ECDH(), peer_public_key)
+                    break
+        except ValueError:
+            raise AlertIllegalParameter("Key exchange failed")
+        if shared_key is None:
+            raise AlertHandshakeFailure("No supported key share")
 
         # send hello
         hello = ServerHello(
@@ -2167,13 +2197,18 @@ class Context:
         )
 
     def _set_peer_certificate(self, certificate: Certificate) -> None:
-        self._peer_certificate = x509.load_der_x509_certificate(
-            certificate.certificates[0][0]
-        )
-        self._peer_certificate_chain = [
-            x509.load_der_x509_certificate(certificate.certificates[i][0])
-            for i in range(1, len(certificate.certificates))
-        ]
+        if not certificate.certificates:
+            raise AlertDecodeError("Certificate message has no certificates")
+        try:
+            self._peer_certificate = x509.load_der_x509_certificate(
+                certificate.certificates[0][0]
+            )
+            self._peer_certificate_chain = [
+                x509.load_der_x509_certificate(certificate.certificates[i][0])
+                for i in range(1, len(certificate.certificates))
+            ]
+        except ValueError:
+            raise AlertBadCertificate("Could not parse certificate")
 
     def _set_state(self, state: State) -> None:
         if self.__logger:
